@@ -20,9 +20,19 @@
      (None = no energy); exp: [expf];  engine0.beta / engine1.beta: rationals;
    * the two length limits: e_maxlen e0 = picked[-1]["ens"]["tis_set"]["maxlength"] (maxlen0 in
      the code) and e_maxlen e1 = picked[0]["ens"]["tis_set"]["maxlength"] (maxlen1) are
-     independent inputs.  retis_swap_zero as written: maxlen1 - 1 sizes BOTH run containers,
-     maxlen0 the new [0-] path and its BTX test (==), maxlen1 the new [0+] path and its FTX test
-     (>=).  quantis_swap_zero as written reads the [0-] limit for both paths (sic).
+     independent inputs.  Each new path is sized and measured by its OWN ensemble's limit:
+     retis_swap_zero: maxlen0 - 1 sizes the backward container, maxlen0 the new [0-] path and its
+     BTX test (==); maxlen1 - 1 the forward container, maxlen1 the new [0+] path and its FTX test
+     (>=).  quantis_swap_zero: maxlen0 for everything of the new [0-] path, maxlen1 (read from
+     ens_set1) for everything of the new [0+] path.
+     This is the code AFTER proposed_fixes/C11_zero_swap_own_limits.diff.  The code before that
+     repair is kept behind the boolean [fixed] of retis_path0_g / retis_swap_zero_g /
+     quantis_complete_g / quantis_swap_zero_g / select_swap_g: [fixed = false] sizes the
+     backward container of retis_swap_zero with maxlen1 - 1 ("path_tmp =
+     path_old1.empty_path(maxlen=maxlen1 - 1)") and lets quantis_swap_zero read the [0-] limit
+     for both paths ("maxlen1 = ens_set0["tis_set"]["maxlength"]"); retis_swap_zero,
+     quantis_swap_zero, select_swap (what every theorem but the two ..._before_fix_refuted
+     witnesses is about) are the [true] instances.
    -inf as the left interface of [0-] is represented by any integer below every order value
    of the case (see [neg_inf_for]); the comparisons the code makes with -inf then have the
    same outcome.
@@ -135,8 +145,9 @@ Definition dump (lab : dlabel) (f : frame) : frame :=
 
 (* ------------------------------------------------------------------ retis_swap_zero *)
 
-(* 1. path for [0-] from [0+] *)
-Definition retis_path0 (e0 e1 : ens) (allowed : bool) (old1 : path) (streams : list (list frame))
+(* 1. path for [0-] from [0+].  [fixed]: the backward container is sized with the [0-] limit
+   (true, the code) / with the [0+] limit (false, the code before the repair) *)
+Definition retis_path0_g (fixed : bool) (e0 e1 : ens) (allowed : bool) (old1 : path) (streams : list (list frame))
   : res (path * status * list (list frame) * list call) :=
   let maxlen0 := e_maxlen e0 in
   let maxlen1 := e_maxlen e1 in
@@ -144,7 +155,7 @@ Definition retis_path0 (e0 e1 : ens) (allowed : bool) (old1 : path) (streams : l
   | None => Err ERaise
   | Some f10 =>
     let shpt := copy_frame 0 f10 in
-    let tmp := empty_path (maxlen1 - 1) 0 in
+    let tmp := empty_path ((if fixed then maxlen0 else maxlen1) - 1) 0 in
     match (if allowed
            then match engine_call E0 tmp streams shpt true (e_i0 e0) (e_i2 e0) with
                 | Ok (p, s, c) => Ok (p, s, [c])
@@ -167,6 +178,9 @@ Definition retis_path0 (e0 e1 : ens) (allowed : bool) (old1 : path) (streams : l
       end
     end
   end.
+
+Definition retis_path0 : ens -> ens -> bool -> path -> list (list frame)
+                         -> res (path * status * list (list frame) * list call) := retis_path0_g true.
 
 (* 2. path for [0+] from [0-] *)
 Definition retis_path1 (e0 e1 : ens) (allowed : bool) (old0 : path) (streams : list (list frame))
@@ -220,7 +234,7 @@ Definition high_acc_swap (path1 old1 : path) (e0 e1 : ens) (u : Q) : option (boo
   | _, _, _, _ => None
   end.
 
-Definition retis_swap_zero (e0 e1 : ens) (old0 old1 : spath)
+Definition retis_swap_zero_g (fixed : bool) (e0 e1 : ens) (old0 old1 : spath)
            (streams : list (list frame)) (draws : list Q) : outcome :=
   let p_old0 := sp_path old0 in
   let p_old1 := sp_path old1 in
@@ -232,7 +246,7 @@ Definition retis_swap_zero (e0 e1 : ens) (old0 old1 : spath)
     (* lambda_minus_one: reject early, before any propagation *)
     if lm1_early e0 p_old0 then Out false old0 old1 ZML [] 0
     else
-    match retis_path0 e0 e1 allowed p_old1 streams with
+    match retis_path0_g fixed e0 e1 allowed p_old1 streams with
     | Err e => OErr e
     | Ok (path0, st0, streams1, calls0) =>
     match retis_path1 e0 e1 allowed p_old0 streams1 with
@@ -264,6 +278,14 @@ Definition retis_swap_zero (e0 e1 : ens) (old0 old1 : spath)
     end
     end
   end.
+
+(* the code *)
+Definition retis_swap_zero : ens -> ens -> spath -> spath -> list (list frame) -> list Q -> outcome :=
+  retis_swap_zero_g true.
+(* the code before proposed_fixes/C11_zero_swap_own_limits.diff: refuted by
+   C11_swap_valid_limit_order_refuted *)
+Definition retis_swap_zero_before_fix : ens -> ens -> spath -> spath -> list (list frame) -> list Q -> outcome :=
+  retis_swap_zero_g false.
 
 (* ------------------------------------------------------------------ variants of retis_swap_zero *)
 (* NOT the code: the same two functions with the places a variant changes made parameters, so that
@@ -385,10 +407,12 @@ Definition quantis_pacc (beta0 beta1 : Q) (en : Q * Q * Q * Q) : Q :=
 Definition end_is_R1 (p : path) (l : Z) : bool := opt_is_R (end_point p l l).
 
 (* completion of the two paths once the energy rule passed *)
-Definition quantis_complete (e0 e1 : ens) (tmp0 tmp1 : path) (start_cond1_L : bool)
+(* [fixed]: maxlen1 is read from ens_set1 (true, the code) / from ens_set0 (false, the code
+   before the repair) *)
+Definition quantis_complete_g (fixed : bool) (e0 e1 : ens) (tmp0 tmp1 : path) (start_cond1_L : bool)
            (streams : list (list frame)) (calls : list call) (nd : nat) : outcome :=
   let maxlen0 := e_maxlen e0 in
-  let maxlen1 := e_maxlen e0 in          (* sic: the code reads ens_set0 for both *)
+  let maxlen1 := e_maxlen (if fixed then e1 else e0) in
   let lambda0 := e_i2 e0 in
   match first_frame tmp0 with
   | None => OErr ERaise
@@ -439,7 +463,10 @@ Definition quantis_complete (e0 e1 : ens) (tmp0 tmp1 : path) (start_cond1_L : bo
     end
   end.
 
-Definition quantis_swap_zero (e0 e1 : ens) (beta0 beta1 : Q) (old0 old1 : spath)
+Definition quantis_complete : ens -> ens -> path -> path -> bool -> list (list frame) -> list call -> nat -> outcome :=
+  quantis_complete_g true.
+
+Definition quantis_swap_zero_g (fixed : bool) (e0 e1 : ens) (beta0 beta1 : Q) (old0 old1 : spath)
            (streams : list (list frame)) (draws : list Q) : outcome :=
   let p_old0 := sp_path old0 in
   let p_old1 := sp_path old1 in
@@ -482,7 +509,7 @@ Definition quantis_swap_zero (e0 e1 : ens) (beta0 beta1 : Q) (old0 old1 : spath)
           | [] => OErr ERaise
           | rand :: _ =>
             if e_accept_all e0 || Qle_bool rand pacc
-            then quantis_complete e0 e1 tmp0 tmp1 start_cond1_L streams2 [c0; c1] 1
+            then quantis_complete_g fixed e0 e1 tmp0 tmp1 start_cond1_L streams2 [c0; c1] 1
             else Out false (mkSP tmp1 QEA 0) (mkSP tmp1 QEA 0) QEA [c0; c1] 1   (* sic: tmp_path1 twice *)
           end
         end
@@ -491,11 +518,23 @@ Definition quantis_swap_zero (e0 e1 : ens) (beta0 beta1 : Q) (old0 old1 : spath)
   | _, _ => OErr ERaise
   end.
 
-(* select_shoot, two picked ensembles: quantis flag of [0-]'s tis_set decides *)
-Definition select_swap (quantis : bool) (e0 e1 : ens) (beta0 beta1 : Q) (old0 old1 : spath)
+(* the code *)
+Definition quantis_swap_zero : ens -> ens -> Q -> Q -> spath -> spath -> list (list frame) -> list Q -> outcome :=
+  quantis_swap_zero_g true.
+(* the code before proposed_fixes/C11_zero_swap_own_limits.diff: refuted by
+   C11_quantis_limit_order_refuted *)
+Definition quantis_swap_zero_before_fix : ens -> ens -> Q -> Q -> spath -> spath -> list (list frame) -> list Q -> outcome :=
+  quantis_swap_zero_g false.
+
+(* select_shoot, two picked ensembles: quantis flag of [0-]'s tis_set decides.
+   [fixed_r] / [fixed_q]: which retis_swap_zero / quantis_swap_zero (see above) *)
+Definition select_swap_g (fixed_r fixed_q : bool) (quantis : bool) (e0 e1 : ens) (beta0 beta1 : Q) (old0 old1 : spath)
            (streams : list (list frame)) (draws : list Q) : outcome :=
-  if quantis then quantis_swap_zero e0 e1 beta0 beta1 old0 old1 streams draws
-  else retis_swap_zero e0 e1 old0 old1 streams draws.
+  if quantis then quantis_swap_zero_g fixed_q e0 e1 beta0 beta1 old0 old1 streams draws
+  else retis_swap_zero_g fixed_r e0 e1 old0 old1 streams draws.
+
+Definition select_swap : bool -> ens -> ens -> Q -> Q -> spath -> spath -> list (list frame) -> list Q -> outcome :=
+  select_swap_g true true.
 
 End Swap.
 
